@@ -80,6 +80,42 @@ def history(args):
     return ev
 
 
+def history_reencrypt(args):
+    """a JSON-serialized JWE is decrypted and the returned object is encrypted again, n times over (a re-encrypting proxy):
+    every re-encryption must draw its own IV / CEK / epk / key-wrap IV.  (A p2s carried by the decrypted header is a value
+    the caller supplies, so it is not an event here.)"""
+    (alg, enc, ser), n = args
+    from joserfc import jwe
+    J.register_drafts({"1pu", "chacha"})
+    kind = K.jwe_key_kind(alg, enc)
+    rj = K.get(kind, 0)
+    pub, priv = J.jkey(J.pub(rj)), J.jkey(rj)
+    reg = jwe.JWERegistry(algorithms=[alg, enc])
+    cls = jwe.FlattenedJSONEncryption if ser == "flattened" else jwe.GeneralJSONEncryption
+    obj = cls({"alg": alg, "enc": enc, **({"p2c": 8} if alg.startswith("PBES2") else {})}, b"same plaintext")
+    obj.add_recipient(None, pub)
+    tok = jwe.encrypt_json(obj, None, registry=reg)
+    ev = []
+    base = {"enc": enc, "crv": "", "len": 0, "rcrv": "", "p2c": 0}
+    for i in range(n + 1):
+        prot = json.loads(R.b64d(tok["protected"]))
+        r0 = tok["recipients"][0] if "recipients" in tok else tok
+        h = {**prot, **(r0.get("header") or {})}
+        ev.append({**base, "kind": "iv", "v": list(R.b64d(tok["iv"]))})
+        if alg not in ("dir", "ECDH-ES"):
+            cek = R.unwrap_for_recipient(alg, enc, h, rj, R.b64d(r0.get("encrypted_key", "")), None, R.b64d(tok["tag"]))
+            ev.append({**base, "kind": "cek", "v": list(cek)})
+        if "epk" in h:
+            ev.append({**base, "kind": "epk", "v": list(R.b64d(h["epk"]["x"])), "crv": h["epk"]["crv"], "rcrv": rj["crv"]})
+        if alg.endswith("GCMKW"):
+            ev.append({**base, "kind": "gcmkw_iv", "v": list(R.b64d(h["iv"]))})
+        if i < n:
+            o = jwe.decrypt_json(tok, priv, registry=reg)
+            o.plaintext = b"same plaintext"                   # (the proxy may edit the content; here it stays equal)
+            tok = jwe.encrypt_json(o, pub, registry=reg)
+    return ev
+
+
 def history_forked(args):
     """the process encrypts first and is then forked: the children (pre-fork server workers) must not repeat each other"""
     import os, pickle
@@ -173,6 +209,8 @@ def run(ctx: Ctx) -> None:
         gres = pool.map(genkeys, gtasks, chunksize=1)
         fcfgs = [c for i, c in enumerate(cfgs) if thorough or i % 3 == 0]
         fres = pool.map(history_forked, [(c, 24, 4) for c in fcfgs], chunksize=1)
+        rcfgs = [c for c in cfgs if c[2] != "compact" and "1PU" not in c[0]]
+        rres = pool.map(history_reencrypt, [(c, 100 if thorough else 24) for c in rcfgs], chunksize=1)
     traces = []
     for i, c in enumerate(cfgs):
         ev = [e for p in range(procs) for e in res[i * procs + p]]
@@ -183,6 +221,10 @@ def run(ctx: Ctx) -> None:
             raise MachineryError(f"forked history failed: {[e for e in ev if 'error' in e][:1]}")
         kinds = {e["kind"] for e in ev}
         traces.append({"name": "/".join(c) + " (encrypt, then fork 4 workers)", "uniform": sorted(kinds & {"iv", "cek", "gcmkw_iv", "p2s"}), "events": ev})
+    for c, ev in zip(rcfgs, rres):
+        kinds = {e["kind"] for e in ev}
+        traces.append({"name": "/".join(c) + " (decrypt_json, then encrypt_json of the returned object, repeatedly)",
+                       "uniform": sorted(kinds & {"iv", "cek", "gcmkw_iv"}) if len(ev) >= 64 * len(kinds) else [], "events": ev})
     for i, g in enumerate(gens):
         ev = [e for p in range(procs) for e in gres[i * procs + p]]
         traces.append({"name": f"generate {g[0]} {g[1]}", "uniform": ["genkey"] if g[0] == "oct" else [], "events": ev})
